@@ -93,7 +93,7 @@ Proof.
   destruct Hd as (Hh & (ls & ll & Emp) & _ & (Hpos & Hkind) & H8 & Hlr & t & Gt & Ht & Hcont).
   destruct Hkind as [->|(bs & bl & ->)]; [|exfalso; apply (Hnm ls ll bs bl Emp)].
   unfold hdr_pos in Hpos. rewrite Em in Hpos.
-  destruct (Hcont eq_refl) as (cenc & (Finv & Hnamed & Hsh) & (X1 & X2 & c & Eo & Hc & Hct & U1 & U2)).
+  destruct Hcont as (cenc & (Finv & Hnamed & Hsh) & (X1 & X2 & c & Eo & Hc & Hct & U1 & U2)). cbn [mk_of cut_of] in Eo, U1, U2.
   destruct (Nat.ltb_spec (length m) h) as [|_]; [lia|].
   change (0 + h) with h in H.
   destruct (body_content m h (f8 rf || fline rf) st1 ltac:(lia) Hb) as (st2 & O & E2 & Ho2 & Hz2 & Hnz2).
